@@ -4,6 +4,7 @@ import (
 	"fmt"
 
 	"github.com/algorand/go-algorand/data/basics"
+	"github.com/algorand/go-algorand/protocol"
 )
 
 // Fork hunting (C01). Uniformly random schedules almost never complete a fork even when a node has
@@ -23,6 +24,38 @@ type hunt struct {
 	val    PValue
 	iso    int
 	until  int
+	// phase 1: the bottom next-votes of the period are DELAYED for everybody, so that every node stays in the
+	// period long enough to do whatever it is going to do when the (slow) payload finally arrives; phase 2
+	// lets them through to the non-isolated side only.
+	phase1Until int
+}
+
+// huntHolds: phase-1 delay (the message stays in flight).
+func (s *Sim) huntHolds(f *flight) bool {
+	h := s.hunt
+	if h == nil || s.step >= h.phase1Until || !f.hasHdr || f.vr != h.round || f.vp != h.period {
+		return false
+	}
+	if f.vs >= stepNext && f.vs < stepLate && f.vval.IsBottom() {
+		// end phase 1 early once every honest node has cert-voted the value
+		o := s.huntSeen[fmt.Sprintf("%d|%d", h.round, h.period)]
+		all := true
+		for _, n := range s.nodes {
+			if n.adv || !n.alive {
+				continue
+			}
+			if _, ok := o.certBy[n.id]; !ok {
+				all = false
+			}
+		}
+		if all {
+			h.phase1Until = s.step
+			s.stat("hunt_phase1_all_cert_voted", 1)
+			return false
+		}
+		return true
+	}
+	return false
 }
 
 type huntObs struct {
@@ -37,11 +70,82 @@ func setHdr(f *flight, dec any) {
 		f.hasHdr, f.vr, f.vp, f.vs, f.vval = true, d.R.Round, d.R.Period, d.R.Step, d.R.Proposal
 	case UBundle:
 		f.hasHdr, f.vr, f.vp, f.vs, f.vval = true, d.Round, d.Period, d.Step, d.Proposal
+	case TPayload:
+		f.ppRound = d.Block.Round()
 	}
+}
+
+// clockHeld (clean-hunt profile only): a node that has entered the next-vote steps of a period while a
+// slow proposal payload of that round is still on its way to it gets no further clock ticks until the
+// payload has arrived (a slow node is legal). This parks nodes exactly where a late payload meets the
+// recovery steps of the period - the window in which a cert vote would contradict a bottom next-vote.
+func (s *Sim) clockHeld(n *Node) bool {
+	ln, ok := s.lastNext[n.id]
+	if !ok || ln.r != n.led.next() || ln.until < s.step {
+		return false
+	}
+	for _, f := range s.inflight {
+		if f.to == n.id && f.tag == protocol.ProposalPayloadTag && f.notBefore > s.step {
+			return true
+		}
+	}
+	return false
+}
+
+// preHuntHolds (clean-hunt profile, no hunt running): while a slow proposal payload of a round is still under
+// way, the bottom next-votes of that round are delayed as well, so that the period does not end before the
+// payload has met the nodes waiting in their next-vote steps.
+func (s *Sim) preHuntHolds(f *flight) bool {
+	if !f.hasHdr || f.vs < stepNext || f.vs >= stepLate || !f.vval.IsBottom() {
+		return false
+	}
+	for _, g := range s.inflight {
+		if g.tag == protocol.ProposalPayloadTag && g.ppRound == f.vr && g.notBefore > s.step {
+			return true
+		}
+	}
+	return false
+}
+
+// huntClockHeld (clean-hunt profile, phase 2): the non-isolated nodes that are still in the hunted period get
+// no clock ticks - their next recovery step would vote the (now committable) value and end the period with a
+// value quorum instead of the bottom quorum that is already in flight to them.
+func (s *Sim) huntClockHeld(n *Node) bool {
+	h := s.hunt
+	if h == nil || (n.id == h.iso && s.step >= h.phase1Until) {
+		return false
+	}
+	if s.step >= h.phase1Until+400 {
+		return false // the bottom votes have had ample time to arrive: let the nodes act in the next period
+	}
+	c, ok := s.nodePer[n.id]
+	return ok && c.r == h.round && c.p == h.period && n.led.next() == h.round
+}
+
+type lastNextRec struct {
+	r     basics.Round
+	p     uint64
+	until int
 }
 
 // huntObserve is fed every attest vote an honest node originates.
 func (s *Sim) huntObserve(n *Node, v UVote) {
+	if s.cfg.CleanHunt {
+		if s.nodePer == nil {
+			s.nodePer = map[int]lastNextRec{}
+		}
+		if c, ok := s.nodePer[n.id]; !ok || v.R.Round > c.r || (v.R.Round == c.r && v.R.Period > c.p) {
+			s.nodePer[n.id] = lastNextRec{r: v.R.Round, p: v.R.Period}
+		}
+	}
+	if s.cfg.CleanHunt && v.R.Step >= stepNext && v.R.Step < stepLate {
+		if s.lastNext == nil {
+			s.lastNext = map[int]lastNextRec{}
+		}
+		if ln, ok := s.lastNext[n.id]; !ok || ln.r != v.R.Round || ln.p != v.R.Period {
+			s.lastNext[n.id] = lastNextRec{r: v.R.Round, p: v.R.Period, until: s.step + 2500}
+		}
+	}
 	if v.R.Step < stepCert {
 		return
 	}
@@ -70,7 +174,15 @@ func (s *Sim) huntObserve(n *Node, v UVote) {
 	iso := -1
 	var isoStake uint64
 	for id, nd := range s.nodes {
-		if _, ok := o.certBy[id]; ok && o.botBy[id] {
+		_, certd := o.certBy[id]
+		if s.cfg.CleanHunt && o.botBy[n.id] {
+			// orderly profile, same-node danger just seen at n: payloads land everywhere within a few steps, so
+			// any node that next-voted bottom is expected to follow; isolate the lightest of them
+			if _, c := o.certBy[n.id]; c && !nd.adv && nd.alive {
+				certd = true
+			}
+		}
+		if certd && o.botBy[id] {
 			var st uint64
 			for _, a := range nd.accts {
 				st += s.cfg.Stake[a.Idx]
@@ -83,8 +195,8 @@ func (s *Sim) huntObserve(n *Node, v UVote) {
 	if iso < 0 {
 		// cross-node danger is common and harmless with correct code: hunt on it only now and then
 		// (decided by the vote's content, not by a tape draw)
-		if h := voteSha(v); h[0]%8 != 0 {
-			return
+		if h := voteSha(v); h[0]%8 != 0 || s.cfg.CleanHunt {
+			return // (clean profile: only the unambiguous same-node danger starts a hunt)
 		}
 		for id := range s.nodes {
 			if _, ok := o.certBy[id]; ok {
@@ -93,7 +205,11 @@ func (s *Sim) huntObserve(n *Node, v UVote) {
 			}
 		}
 	}
-	s.hunt = &hunt{round: v.R.Round, period: v.R.Period, val: o.certBy[iso], iso: iso, until: s.step + 3000}
+	val, ok := o.certBy[iso]
+	if !ok {
+		val = o.certBy[n.id]
+	}
+	s.hunt = &hunt{round: v.R.Round, period: v.R.Period, val: val, iso: iso, until: s.step + 3000, phase1Until: s.step + 600}
 	s.log.Add("  HUNT: isolate n%d for r%d p%d value %s same-node=%v", iso, v.R.Round, v.R.Period, s.hunt.val.Short(), o.botBy[iso])
 	s.stat("hunt_started", 1)
 	if o.botBy[iso] {
